@@ -27,3 +27,11 @@ package xpub
 //@   ensures option == protocol.OptionRaw ==> isnil(result1) && result0 == iface(true)
 //@
 // ---- end generated option contracts ----
+//@
+//@ func (*socket).OpenContext
+//@   modifies none
+//@   ensures isnil(result0) && result1 == protocol.ErrProtoOp
+//@
+//@ func (*socket).RecvMsg
+//@   modifies none
+//@   ensures result0 == nil && result1 == protocol.ErrProtoOp
